@@ -39,6 +39,7 @@ _DESC_POOL = [
     "Output", "Output gap, pct", "Inflation Q/Q", "Long run growth !! \\alpha", "Rate; annualised", "5-year rate (exp.)",
     "Share of x % of y", "Wage # index", "it's a trap", "Policy rate: short", "a=b+c", "Habit [internal]", "", "",
     "Habit !! \\chi_{1}", "Lagged rate x{-1}, pct", "Term premium \\rho_{t20}", "set {2} of {+3}",
+    "Prices & wages", "Gap > 0 (Okun's law)",
 ]
 
 
@@ -520,6 +521,12 @@ def render_source(spec, rng=None, level=1):
     def desc_text(d):
         if level == 0 or not d:
             return ""
+        if level >= 2 and "{" not in d and coin(0.25):
+            # the description is inserted by the templater from the context ({{ name }}): it must arrive character by character
+            name = f"DESC{len(context)}"
+            context[name] = d
+            feats.add("jinja-inserted-description")
+            return '"{{ ' + name + ' }}" '
         return '"' + d + '" '
 
     fam_as_loop = {k: (level >= 2 and coin(0.75)) for k in range(len(spec.get("families", [])))}
@@ -624,7 +631,13 @@ def render_source(spec, rng=None, level=1):
                 truth = coin()
                 context[flag] = truth
                 decoy = render_eq({"lhs": eq["lhs"], "rhs": E.bin_("+", eq["rhs"], E.num(1.0)), "steady": None}, allow_subs=False) + ";"
-                cond = pick([flag, f"{flag} == True", f"not (not {flag})"]) if truth else pick([f"not {flag}", f"{flag} == False"])
+                cond = pick([flag, f"{flag} == True", f"not (not {flag})", f"{flag} > 0"]) if truth else pick([f"not {flag}", f"{flag} == False", f"1 > {flag}"])
+                if coin(0.25):
+                    # the condition itself comes from the context through the templater
+                    cname = f"COND{len(context)}"
+                    context[cname] = cond
+                    cond = "{{ " + cname + " }}"
+                    feats.add("jinja-inserted-condition")
                 form = int(rng.integers(0, 4))
                 if form == 0:
                     line = f"!if {cond} !then\n        {line}\n    !else\n        {decoy}\n    !end"
